@@ -74,6 +74,9 @@ type Config struct {
 	// affordable for small programs; the default (delay bounding) counts every departure from
 	// the deterministic default schedule.
 	FreeBlockedSwitch bool
+	// SwitchCost is the deviation cost of a non-default thread / timer choice (default 1). A harness
+	// whose deviations should be spent on faults first sets it higher than its fault cost.
+	SwitchCost int
 	// SelectCost is the deviation cost of a non-source-order select probe order (default 1).
 	SelectCost int
 }
@@ -470,6 +473,9 @@ func Run(x *mc.Exec, cfg Config, mainFn func()) (res Result) {
 	if cfg.SelectCost == 0 {
 		cfg.SelectCost = 1
 	}
+	if cfg.SwitchCost == 0 {
+		cfg.SwitchCost = 1
+	}
 	s := &Sched{x: x, cfg: cfg, byGoid: map[int64]*Thread{}, events: make(chan struct{}, 1)}
 	if !current.CompareAndSwap(nil, s) {
 		panic("vsched: nested or concurrent Run (use mc.Options{Workers:1})")
@@ -543,7 +549,7 @@ func Run(x *mc.Exec, cfg Config, mainFn func()) (res Result) {
 			// Delay bounding: the default is "continue the running thread, else the lowest id";
 			// every departure costs one deviation. With FreeBlockedSwitch (preemption bounding)
 			// a switch is free when the running thread cannot continue anyway.
-			cost := 1
+			cost := cfg.SwitchCost
 			if cfg.FreeBlockedSwitch && !lastEnabled {
 				cost = 0
 			}
